@@ -532,6 +532,10 @@ func init() {
 			}
 			nReal := tierN(c.Tier, 700, 14000)
 			if c.Idx >= nReal {
+				if c.Idx%24 == 11 {
+					// a burst on a delayed pipeline that was undefined (and saved) while its job ran
+					return simpleCase(c, drv.RunDelayedAfterUndefinedCase(int64(c.Idx/24)), 5)
+				}
 				if c.Idx%24 == 10 {
 					// the delay is the only delay: a slow data store (save in progress) does not hold back a job whose delay
 					// has passed, nor the requests of a burst
@@ -772,11 +776,15 @@ func init() {
 				// escalation: a forced shutdown while a graceful one is still waiting
 				return simpleCase(c, drv.RunShutdownDirectedCase(c.Seed, 1), 50)
 			}
+			if k%20 == 6 {
+				// jobs wait next to free slots (a reload raised the concurrency) when the shutdown begins: canceled, not started
+				return simpleCase(c, drv.RunShutdownWithFreeSlotsCase(int64(k/20)), 3)
+			}
 			if k%40 == 4 {
 				// a save inside a slow store, more saves waiting for their turn, then the shutdown: its final save has to wait too
 				return simpleCase(c, drv.RunShutdownWithSavesInFlightCase(int64(k/40)), 3)
 			}
-			o := drv.ShutdownOpts{Forced: k%2 == 1, SlowSave: (k/2)%2 == 0, Clients: (k/4)%4 != 3, HTTP: (k/16)%2 == 0, NoStore: k%32 == 31, NoFinisher: k%2 == 1 && (k/8)%2 == 0}
+			o := drv.ShutdownOpts{Forced: k%2 == 1, SlowSave: (k/2)%2 == 0, Clients: (k/4)%4 != 3, HTTP: (k/16)%2 == 0, NoStore: k%32 == 31, NoFinisher: k%2 == 1 && (k/8)%2 == 0, RaiseBefore: k%3 == 1}
 			return simpleCase(c, drv.RunShutdownCase(c.Seed, o), 150)
 		},
 		MinDistinct:   25,
